@@ -295,6 +295,13 @@ ZERO_COST_TAIL = '''
 '''
 
 
+# a commodity held at cost in USD, priced in USD only, next to a EUR / USD rate: converting it to EUR goes through the cost currency
+PRICES_TAIL = """
+2030-01-09 price ACME 11.00 USD
+2030-01-09 price EUR 1.10 USD
+"""
+
+
 def priceless_layer(ctx):
     """a ledger without any price directive: value() and convert() have nothing to convert with, and still commute with sum"""
     import re
@@ -342,7 +349,7 @@ def run(ctx):
     for k in range(n):
         text, entries, errors, options = ledgers.gen_ledger(rng, ntxn=rng.range(8, 25))
         # lots received for nothing: their cost is zero, which is a cost all the same
-        entries, errors, options = ledgers.load(text + ZERO_COST_TAIL)
+        entries, errors, options = ledgers.load(text + ZERO_COST_TAIL + PRICES_TAIL)
         conn = ledgers.connect(entries, errors, options)
         sums_layer(ctx, conn)
         nested_sums_layer(ctx, conn)
